@@ -212,7 +212,7 @@ static void c08_history_phase(int n, int depth, int codeStep) {
 
 int main(int argc, char **argv) {
     ctx.init(argc, argv);
-    freopen("/dev/null", "w", stderr);
+    if (!ctx.c15()) freopen("/dev/null", "w", stderr);   // libcola prints diagnostics; under the sanitised build stderr carries the reports
     bool T = ctx.thorough(); string prop = ctx.opt["prop"];
     if (prop == "C07") {
         for (int mode : {0, 1, 2, 4}) c07_phase(3, mode, false, false, mode < 2 ? 7 : 13, 2, 0, 2);
